@@ -19,7 +19,7 @@
 //!
 //! Events (judged by spec/trace/T_Ribbit.tla; nothing is decided here):
 //!   {"op":"new","fam":..,"cfg":{..},"db":[..],"accepted":bool,"why":"<error text>"}
-//!   {"op":"query","seq":n,..step..,"ms":t,"res":{"out":"rows","rows":[[{"n":name,"k":"str|hex|dec|empty","v":text,"raw":text},..],..]}
+//!   {"op":"query","seq":n,..step..,"ms":t,"res":{"out":"rows","rows":[[{"n":name,"k":"str|hex|dec|empty","v":text[,"raw":text]},..],..]}
 //!                                              |{"out":"err","err":text}|{"out":"panic","msg":..}|{"out":"timeout"}}
 //!   {"op":"open","seq":n,"c":c,"tr":..,"n":k,"res":{"connected":k}}
 //!   {"op":"send","seq":n,"c":c,"cls":..,"res":{"sent":k}}
@@ -225,7 +225,13 @@ fn doc_rows(doc: &BpsvDocument) -> Value {
                 Some(BpsvValue::Empty) => ("empty", String::new()),
                 None => ("missing", String::new()),
             };
-            row.push(json!({"n": f.name, "k": k, "v": v, "raw": r.get_raw(i).unwrap_or("")}));
+            // `raw` (the text between the pipes) is informational; logged only where it differs from `v`
+            let raw = r.get_raw(i).unwrap_or("");
+            if raw == v {
+                row.push(json!({"n": f.name, "k": k, "v": v}));
+            } else {
+                row.push(json!({"n": f.name, "k": k, "v": v, "raw": raw}));
+            }
         }
         rows.push(Value::Array(row));
     }
